@@ -70,6 +70,10 @@ def domain(tier):
         longs.append(b"]]" + b"x" * (n - 2))
         longs.append(b"a]=]" + b"x" * (n - 4))
         longs.append(b"a]]b]=]c]==]" + b"x" * max(0, n - 12))
+        longs.append(b"x" * (n - 5) + b"]]b]=")              # needs level 1 and ends with the start of a level-1 closer
+        longs.append(b"x" * (n - 9) + b"]]b]=]c]==")         # ... level 2
+        longs.append(b"]=" + b"x" * (n - 4) + b"]=")
+        longs.append(b"x" * (n - 2) + b"]=")
         longs.append(b"x" * (n - 1) + b"\r")
         longs.append(b"x" * (n - 1) + b"'")
         longs.append(b"'\"" + b"x" * (n - 2))
